@@ -71,8 +71,11 @@ def enc_val(v):
 
 
 def enc_raw(v):
-    """a value the CLI loop stored without normalisation -> V (scalars as scalars, containers raw)"""
-    if isinstance(v, (list, dict)):
+    """a value as the CLI loop leaves it -> V: a Python dict is a dict (the same kind of object as the
+    nested META level of the parser), a raw Python list is `py`, everything else as in enc_val"""
+    if isinstance(v, dict):
+        return {"d": [[k, enc_raw(x)] for k, x in v.items()]}
+    if isinstance(v, list):
         return {"py": enc_jval(v)}
     return enc_val(v)
 
@@ -459,12 +462,18 @@ def oracle_history(case):
             f.write(case["text"])
         before = case["text"]
         for i, rq in enumerate(case["requests"]):
+            # the generated file must be canonical (a fixpoint of parse/emit); the files the tool itself
+            # wrote in earlier steps are taken as they are: if the tool left a layout that its next call
+            # re-arranges, the frame comparison of the next step shows it.
             try:
-                if emit(parse(before)) != before:
-                    return {"status": "skip", "why": "file not canonical before step", "step": i}
+                if i == 0 and emit(parse(before)) != before:
+                    return {"status": "skip", "why": "generated file not canonical", "step": i}
                 seg_b = segment(before)
             except Unsegmentable as e:
-                return {"status": "skip", "why": f"unsegmentable before: {e}", "step": i}
+                if i == 0:
+                    return {"status": "skip", "why": f"unsegmentable before: {e}", "step": i}
+                return {"status": "fail", "why": f"file written by the previous call cannot be segmented ({e})", "why_class": "after-unsegmentable",
+                        "step": i - 1, "after": before}
             except Exception as e:
                 return {"status": "skip", "why": f"precondition: {type(e).__name__}", "step": i}
             changes, mutations = rq["changes"], rq.get("mutations")
@@ -534,3 +543,500 @@ def impl_emit(D):
         return {"text": emit(build_doc(D)), "strs": strs, "always": always}
     except Exception as e:
         return {"exc": f"{type(e).__name__}: {e}"[:300]}
+
+
+# ---------------------------------------------------------------------------------------------
+# generators (one seeded PRNG per case: random.Random(f"{seed}:{stream}:{index}"))
+# ---------------------------------------------------------------------------------------------
+
+ABS = {"a": 1}
+
+# top-level keys: prefixes of each other (A/AA), non-prefix substrings (A in BA), case variants, dots,
+# hyphens, underscores, digits, non-ASCII, the always-quoted keys, near-misses of the META dispatch.
+KEYS_TOP = ["A", "B", "AA", "BA", "a", "KEY_1", "a.b", "x-y", "Ünï", "STATUS", "ID", "PATTERN", "REGEX", "T1", "METAX", "XMETA.Y", "META_Z", "Z9"]
+KEYS_META = ["TYPE", "VERSION", "STATUS", "ID", "X", "AA", "A", "x-y", "a.b", "PATTERN", "Ünï", "OWNER"]
+MAP_KEYS = ["k", "j", "key_2", "K.x", "PATTERN", "op"]
+
+S = lambda s: {"s": s}  # noqa: E731
+I = lambda i: {"i": str(i)}  # noqa: E731
+
+# scalars that survive emit -> parse today (DESIGN.md section 8: no backslash-n, no reserved-word prefixes
+# followed by '.', no '<' qualifier lists)
+DOC_SCALARS = [None, True, False, I(0), I(1), I(-3), I(42), I(12345678901234567890), {"o": "1.5"}, S("abc"), S("DONE"), S("a.b-c"),
+               S("hello world"), S("true"), S("null"), S("1"), S("x::y"), S("a,b"), S("[x]"), S("[]"), S("ünï"), S(""), S('say "hi"'),
+               S("a→b"), S("$VAR"), S("N<q>"), S("//not a comment"), S(" lead"), S("A_B")]
+COMMENTS = ["note", "x y", "TODO: check :: this", "§ 1", "a,b [c]"]
+
+
+def gen_value(rng, depth, allow_standalone_map=True, allow_multi_pair=None):
+    """allow_standalone_map / allow_multi_pair are False for documents that must re-read to themselves
+    (the parser delivers a map only as single-pair items of a list)."""
+    if allow_multi_pair is None:
+        allow_multi_pair = allow_standalone_map
+    r = rng.random()
+    if depth <= 0 or r < 0.55:
+        return copy.deepcopy(rng.choice(DOC_SCALARS))
+    if r < 0.9:
+        n = rng.choice([0, 1, 1, 2, 2, 3, 3, 4, 5])
+        items = []
+        for _ in range(n):
+            q = rng.random()
+            if q < 0.15:
+                ps = gen_pairs(rng, depth - 1)
+                items.append({"m": ps if allow_multi_pair else ps[:1]})
+            else:
+                items.append(gen_value(rng, depth - 1, False, allow_multi_pair))
+        return {"l": items}
+    if allow_standalone_map:
+        return {"m": gen_pairs(rng, depth - 1)}
+    return {"l": []}
+
+
+def gen_pairs(rng, depth):
+    ks = rng.sample(MAP_KEYS, rng.choice([0, 1, 1, 2, 3]))
+    out = []
+    for k in ks:
+        v = gen_value(rng, min(depth, 1), False)
+        if isinstance(v, dict) and "l" in v and any(isinstance(x, dict) and "m" in x for x in v["l"]):
+            v = {"l": []}                     # inline maps cannot contain inline maps (parser rule)
+        out.append([k, v])
+    return out
+
+
+def gen_zone(rng):
+    return {"z": [rng.choice(["```", "````"]), rng.choice(["", "py", "json"]), rng.choice(["", "x = 1", "a\n  b\n\nc", "K::v\n===END==="])]}
+
+
+def gen_node(rng, depth, top, for_text, keys):
+    r = rng.random()
+    lead = [rng.choice(COMMENTS) for _ in range(rng.choice([0, 0, 0, 1, 2]))]
+    if depth <= 0 or r < 0.68:
+        key = rng.choice(keys)
+        if rng.random() < 0.06:
+            v = gen_zone(rng)
+            trail = None
+        else:
+            v = gen_value(rng, 2, allow_standalone_map=not for_text)
+            multiline = isinstance(v, dict) and ("l" in v or "m" in v)
+            trail = rng.choice(COMMENTS) if (rng.random() < 0.15 and not (for_text and multiline)) else None
+        return {"t": "a", "lead": lead, "key": key, "v": v, "trail": trail}
+    if r < 0.86:
+        ch = [gen_node(rng, depth - 1, False, for_text, keys) for _ in range(rng.choice([0, 1, 2, 3]))]
+        if for_text and not ch:
+            ch = [{"t": "a", "lead": [], "key": "X", "v": I(1), "trail": None}]
+        return {"t": "b", "lead": lead, "key": rng.choice(["BLK", "CFG", "A", "B2", "INNER.x"]), "target": rng.choice([None, None, None, "T", "SELF"]), "ch": ch}
+    if r < 0.96 or top:
+        ch = [gen_node(rng, depth - 1, False, for_text, keys) for _ in range(rng.choice([0, 1, 2]))]
+        return {"t": "s", "lead": lead, "id": rng.choice(["1", "2", "2b", "10"]), "key": rng.choice(["SEC", "RULES", "A"]),
+                "ann": rng.choice([None, None, "ann", "a,b"]), "ch": ch}
+    return {"t": "c", "text": rng.choice(COMMENTS)}
+
+
+def gen_doc(rng, for_text):
+    """a document encoding D.  for_text: restricted to shapes whose canonical text re-reads today."""
+    nmeta = rng.choice([0, 0, 1, 2, 3, 4])
+    meta = []
+    for k in rng.sample(KEYS_META, nmeta):
+        if rng.random() < 0.15:
+            meta.append([k, {"d": [[nk, gen_value(rng, 1, False)] for nk in rng.sample(MAP_KEYS, rng.choice([1, 2]))]}])
+        else:
+            meta.append([k, gen_value(rng, 2, allow_standalone_map=not for_text)])
+    keys = rng.sample(KEYS_TOP, rng.choice([2, 3, 5, 8]))
+    if rng.random() < 0.3:
+        keys = keys + [keys[0]]               # invite duplicate keys
+    nodes = [gen_node(rng, 2, True, for_text, keys) for _ in range(rng.choice([0, 1, 2, 3, 4, 6, 8]))]
+    nodes = [n for n in nodes if n["t"] != "c"]
+    trailing = [rng.choice(COMMENTS)] if rng.random() < 0.15 else []
+    if for_text:
+        # a comment line that follows the last child of a block/section is re-read as belonging to that
+        # block (a reader matter outside C18): keep comments away from those places in file documents
+        # (also after a DELETE of the nodes in between: no comment anywhere after the first block/section)
+        def tidy(ns):
+            seen = False
+            for n in ns:
+                if seen:
+                    n["lead"] = []
+                if n["t"] in ("b", "s"):
+                    seen = True
+                    n["ch"] = [c for c in n["ch"] if c["t"] != "c"]
+                    tidy(n["ch"])
+            return seen
+        if tidy(nodes):
+            trailing = []
+    front, grammar = None, None
+    q = rng.random()
+    if q < 0.08:
+        front = "title: x\ntags: [a, b]"
+    elif q < 0.16:
+        grammar = "5.1.0"
+    return {"front": front, "grammar": grammar, "name": rng.choice(["DOC", "MY_DOC", "SPEC_V2"]), "meta": meta,
+            "sep": rng.random() < 0.4, "nodes": nodes, "trailing": trailing}
+
+
+def sprinkle_absent(rng, D, p):
+    """replace values by Absent at random positions (probability p each)."""
+    D = copy.deepcopy(D)
+    for kind, cpath, idx, pair in positions(D):
+        if rng.random() < p:
+            try:
+                c = get_path(D, cpath)
+            except (KeyError, IndexError, TypeError):
+                continue                      # an enclosing value already became Absent
+            if idx < len(c):
+                if pair:
+                    c[idx][1] = dict(ABS)
+                elif kind in ("top", "block_child", "section_child"):
+                    c[idx]["v"] = dict(ABS)
+                else:
+                    c[idx] = dict(ABS)
+    return D
+
+
+def get_path(D, path):
+    cur = D
+    for p in path:
+        cur = cur[p]
+    return cur
+
+
+def positions(D):
+    """every emission site of a document encoding: (kind, path of the containing list, index, is_pair)"""
+    out = []
+
+    def val(V, path):
+        if isinstance(V, dict):
+            if "l" in V:
+                for j, x in enumerate(V["l"]):
+                    out.append(("list_item", path + ["l"], j, False))
+                    val(x, path + ["l", j])
+            for tag, kind in (("m", "map_value"), ("d", "meta_nested")):
+                if tag in V:
+                    for j, (_k, x) in enumerate(V[tag]):
+                        out.append((kind, path + [tag], j, True))
+                        val(x, path + [tag, j, 1])
+
+    def nodes(ns, path, parent):
+        for i, n in enumerate(ns):
+            if n["t"] == "a":
+                out.append(({"top": "top", "b": "block_child", "s": "section_child"}[parent], path, i, False))
+                val(n["v"], path + [i, "v"])
+            elif n["t"] in ("b", "s"):
+                nodes(n["ch"], path + [i, "ch"], n["t"])
+
+    for i, (_k, v) in enumerate(D["meta"]):
+        out.append(("meta", ["meta"], i, True))
+        val(v, ["meta", i, 1])
+    nodes(D["nodes"], ["nodes"], "top")
+    return out
+
+
+def absent_variants(D, pos):
+    """(D with Absent at the position, D with the position removed)"""
+    kind, cpath, idx, pair = pos
+    Da, Dr = copy.deepcopy(D), copy.deepcopy(D)
+    ca, cr = get_path(Da, cpath), get_path(Dr, cpath)
+    if pair:
+        ca[idx][1] = dict(ABS)
+    elif kind in ("top", "block_child", "section_child"):
+        ca[idx]["v"] = dict(ABS)
+    else:
+        ca[idx] = dict(ABS)
+    del cr[idx]
+    return Da, Dr
+
+
+# ---- request values ---------------------------------------------------------------------------
+DEL = {"$op": "DELETE"}
+# values inside the domain of the property (written, then read back through the parser)
+VALUES_ORACLE = [None, "", [], True, False, 0, 1, -3, 12345678901234567890, 1.5, "abc", "hello world", "a.b-c", "true", "false", "null", "1", "[]",
+                 '""', "x::y", "a,b", "ünï", "A_B", "a→b", "$VAR", "N<q>", " ", ["a"], ["a", "b"], ["a", "b", "c"], [None], [""], [[]],
+                 [None, "", []], [1, None, ""], [["a"], ["b", "c"]], [True, "true"], {"k": "v"}, {"k": 1, "j": None}, [{"k": "v"}, "x"],
+                 {"k": ["a", "b"]}, {"k": ""}, {"k": []}, {"op": "DELETE"}, {"PATTERN": "abc"}, ["a", "b", ["c", "d", "e"]],
+                 dict(DEL), {"$op": "DELETE", "reason": "x"}]
+# known-finding class kf_nested_inline_map (the tool writes a file its own parser rejects)
+VALUES_NESTED_MAP = [{"k": {"j": 1}}, {"k": [{"j": 1}]}, [{"k": {"j": 1}}]]
+# values only for the model/implementation correspondence of `_apply_changes` (no file involved)
+VALUES_CORR_ONLY = [{"$op": "delete"}, {"$op": None}, {"$op": ["DELETE"]}, {"$OP": "DELETE"}, {"$op": "DELETE "}, [dict(DEL)], {"k": dict(DEL)},
+                    {}, [{}], {"$op": 1}, {"x": {"$op": "DELETE"}, "$op": "DELETE"}]
+FRESH_TOP = ["NEW", "A", "AA", "Z9", "new.key", "n-k", "Ünï", "PATTERN", "STATUS"]
+FRESH_META = ["NEW", "TYPE", "X", "AA", "PATTERN", "m.k"]
+KEYS_CORR_ONLY = ["META", "META.", "META.A.B", "META.META", "METAX", "XMETA.Y", "meta.x", "BLK", "SEC", ""]
+
+
+def own_keys(text):
+    from octave_mcp.core.parser import parse
+    A = _ast()
+    d = parse(text)
+    top = list(dict.fromkeys(n.key for n in d.sections if isinstance(n, A.Assignment)))
+    other = list(dict.fromkeys(n.key for n in d.sections if not isinstance(n, A.Assignment)))
+    return top, other, list(d.meta.keys())
+
+
+def in_key_domain(k, other_keys):
+    """request keys the property quantifies over: own top-level assignment keys and fresh keys (not the
+    keys of blocks/sections, not the dispatch words themselves)."""
+    return k not in other_keys and k != "META" and not k.startswith("META.") and k != ""
+
+
+def gen_request(rng, top, other, meta, corr=False):
+    """one request {"changes":…, "mutations":…|None}.  corr=True widens to keys/values outside the domain
+    of the property (only used for the model/implementation correspondence)."""
+    values = VALUES_ORACLE + (VALUES_CORR_ONLY + VALUES_NESTED_MAP if corr else [])
+
+    def val():
+        q = rng.random()
+        if q < 0.22:
+            return dict(DEL)
+        if q < 0.36:
+            return None
+        if not corr and q < 0.39:
+            return copy.deepcopy(rng.choice(VALUES_NESTED_MAP))
+        return copy.deepcopy(rng.choice(values))
+
+    changes = {}
+    for _ in range(rng.choice([0, 1, 1, 1, 2, 2, 3, 4])):
+        q = rng.random()
+        if q < 0.4:
+            pool = (top or FRESH_TOP) if rng.random() < 0.65 else FRESH_TOP
+            if corr and rng.random() < 0.25:
+                pool = KEYS_CORR_ONLY + other
+            k = rng.choice(pool)
+            if not corr and not in_key_domain(k, other):
+                continue
+            changes[k] = val()
+        elif q < 0.7:
+            f = rng.choice(meta) if (meta and rng.random() < 0.6) else rng.choice(FRESH_META)
+            changes["META." + f] = val()
+        elif q < 0.95:
+            fs = rng.sample(sorted(set(meta + FRESH_META)), rng.choice([0, 1, 2, 3]))
+            changes["META"] = {f: val() for f in fs}
+        else:
+            changes["META"] = dict(DEL)
+    mutations = None
+    if rng.random() < 0.25:
+        fs = rng.sample(sorted(set(meta + FRESH_META)), rng.choice([0, 1, 2]))
+        mutations = {f: val() for f in fs}
+    return {"changes": changes, "mutations": mutations}
+
+
+def sweep_requests(top, other, meta, max_keys=4):
+    """exhaustive small scope: every single-entry request (key x operation/value x way of naming it)."""
+    out = []
+    values = [dict(DEL)] + VALUES_ORACLE + VALUES_NESTED_MAP
+    tkeys = list(dict.fromkeys(top[:max_keys] + [k for k in FRESH_TOP if in_key_domain(k, other)][:3]))
+    mkeys = list(dict.fromkeys(meta[:max_keys] + FRESH_META[:2]))
+    for v in values:
+        for k in tkeys:
+            out.append({"changes": {k: copy.deepcopy(v)}, "mutations": None})
+        for f in mkeys:
+            out.append({"changes": {"META." + f: copy.deepcopy(v)}, "mutations": None})
+            out.append({"changes": {"META": {f: copy.deepcopy(v)}}, "mutations": None})
+            out.append({"changes": {}, "mutations": {f: copy.deepcopy(v)}})
+    out.append({"changes": {"META": dict(DEL)}, "mutations": None})
+    out.append({"changes": {}, "mutations": None})
+    return out
+
+
+def canonical_text(D):
+    """canonical file of a generated document, or None when it does not re-read to itself today
+    (those shapes belong to C01/C02/C03, not to C18)."""
+    from octave_mcp.core.emitter import emit
+    from octave_mcp.core.parser import parse
+    try:
+        t = emit(build_doc(D))
+        d2 = parse(t)
+        if emit(d2) != t:
+            return None
+        segment(t)
+        return t
+    except Exception:
+        return None
+
+
+def gen_text_doc(seed, idx):
+    rng = random.Random(f"{seed}:doc:{idx}")
+    for _attempt in range(6):
+        D = gen_doc(rng, for_text=True)
+        t = canonical_text(D)
+        if t is not None:
+            return t
+    return None
+
+
+# ---------------------------------------------------------------------------------------------
+# known-finding class predicates (input-based: the case and the step at which it failed)
+# ---------------------------------------------------------------------------------------------
+
+def dispatch_values(rq):
+    """the values `_apply_changes` / `_apply_mutations` dispatch on: top-level and META.X values, the
+    entries of a META{...} dict (or the dict itself when it is the sentinel), the mutation values."""
+    out = []
+    for k, v in (rq.get("changes") or {}).items():
+        if k == "META" and isinstance(v, dict) and not is_delete(v):
+            out += list(v.values())
+        else:
+            out.append(v)
+    out += list((rq.get("mutations") or {}).values())
+    return out
+
+
+def contains_nonempty_dict(v):
+    if isinstance(v, dict):
+        return len(v) > 0
+    if isinstance(v, list):
+        return any(contains_nonempty_dict(x) for x in v)
+    return False
+
+
+def kf_cli_delete_sentinel(case, step):
+    """entry point = CLI and the request contains a DELETE sentinel where the MCP tool would dispatch on it"""
+    if case.get("kind", "history") != "history":
+        return False
+    rq = case["requests"][step]
+    return case.get("entry") == "cli" and (any(is_delete(v) for v in dispatch_values(rq)) or is_delete(rq["changes"].get("META")))
+
+
+def kf_cli_meta_replace(case, step):
+    """entry point = CLI and the request has a META{...} dict (the CLI replaces META instead of merging)"""
+    if case.get("kind", "history") != "history":
+        return False
+    rq = case["requests"][step]
+    return case.get("entry") == "cli" and isinstance(rq["changes"].get("META"), dict)
+
+
+def kf_cli_container_value(case, step):
+    """entry point = CLI and a request value is a list or a dict (stored raw, printed with str())"""
+    if case.get("kind", "history") != "history":
+        return False
+    rq = case["requests"][step]
+    return case.get("entry") == "cli" and any(isinstance(v, (list, dict)) for v in dispatch_values(rq))
+
+
+def kf_nested_inline_map(case, step):
+    """a value request (MCP tool) whose value is a map that contains a map, directly or through lists"""
+    if case.get("kind", "history") != "history":
+        return False
+    rq = case["requests"][step]
+    return case.get("entry", "mcp") == "mcp" and any((not is_delete(v)) and has_nested_map(v) for v in dispatch_values(rq))
+
+
+def kf_map_relayout(case, step):
+    """history: an EARLIER request of the history wrote a value containing a non-empty map; the tool
+    lays such a value out differently from how its own next parse/emit does"""
+    if case.get("kind", "history") != "history" or case.get("entry", "mcp") != "mcp":
+        return False
+    for rq in case["requests"][:step]:
+        if any((not is_delete(v)) and contains_nonempty_dict(v) for v in dispatch_values(rq)):
+            return True
+    return False
+
+
+def kf_meta_all_absent(case, step=0):
+    """Absent placed on the only entry of META: `emit` appends the empty text of emit_meta as a blank line"""
+    return case.get("kind") == "absent" and case["pos"][0] == "meta" and len(case["doc"]["meta"]) == 1
+
+
+CLASSES = {f.__name__: f for f in (kf_cli_delete_sentinel, kf_cli_meta_replace, kf_cli_container_value, kf_nested_inline_map,
+                                   kf_map_relayout, kf_meta_all_absent)}
+
+
+# ---------------------------------------------------------------------------------------------
+# workers (module level, for vlib.pmap)
+# ---------------------------------------------------------------------------------------------
+
+def work_history(case):
+    """oracle on the real entry point + direct `_apply_changes` for the correspondence."""
+    out = {"oracle": oracle_history(case) if case.get("oracle", True) else {"status": "corr-only"}}
+    if case.get("entry", "mcp") == "mcp":
+        out["impl"] = impl_apply(case)
+    return out
+
+
+def work_absent(case):
+    """case = {"kind":"absent","doc":D,"pos":[kind,path,idx,pair]}: emit with Absent at the site vs emit with
+    the site removed, on the real emitter."""
+    from octave_mcp.core.emitter import emit
+    Da, Dr = absent_variants(case["doc"], tuple(case["pos"]))
+    try:
+        ta = emit(build_doc(Da))
+    except Exception as e:
+        return {"status": "fail", "why": f"emit raised {type(e).__name__}: {e} with Absent at {case['pos'][0]}"[:300], "why_class": "absent-raise"}
+    tr = emit(build_doc(Dr))
+    if ta != tr:
+        return {"status": "fail", "why": f"Absent at a {case['pos'][0]} site is not silent: emitted text differs from the text without the site",
+                "why_class": "absent-" + case["pos"][0], "with_absent": ta, "without_site": tr}
+    return {"status": "ok"}
+
+
+def work_emit(D):
+    return impl_emit(D)
+
+
+def work_tristate(case):
+    """case = {"kind":"tristate","site": one of top|block|section|meta|meta_nested|list|map, "key": k}
+    null, "" and [] at the same site: three different texts, each re-read as itself; Absent: no text."""
+    from octave_mcp.core.emitter import emit
+    from octave_mcp.core.parser import parse
+    A = _ast()
+    site, key = case["site"], case["key"]
+
+    def doc_with(V):
+        D = {"front": None, "grammar": None, "name": "DOC", "meta": [["TYPE", S("T")]], "sep": False,
+             "nodes": [{"t": "a", "lead": [], "key": "FIRST", "v": I(1), "trail": None}], "trailing": []}
+        asg = {"t": "a", "lead": [], "key": key, "v": V, "trail": None}
+        if site == "top":
+            D["nodes"].append(asg)
+        elif site == "block":
+            D["nodes"].append({"t": "b", "lead": [], "key": "BLK", "target": None, "ch": [{"t": "a", "lead": [], "key": "X", "v": I(1), "trail": None}, asg]})
+        elif site == "section":
+            D["nodes"].append({"t": "s", "lead": [], "id": "1", "key": "SEC", "ann": None, "ch": [{"t": "a", "lead": [], "key": "X", "v": I(1), "trail": None}, asg]})
+        elif site == "meta":
+            D["meta"].append([key, V])
+        elif site == "meta_nested":
+            D["meta"].append(["NEST", {"d": [["X", I(1)], [key, V]]}])
+        elif site == "list":
+            D["nodes"].append({"t": "a", "lead": [], "key": "L", "v": {"l": [S("x"), V]}, "trail": None})
+        elif site == "map":
+            D["nodes"].append({"t": "a", "lead": [], "key": "L", "v": {"l": [S("x"), {"m": [[key, V]]}]}, "trail": None})
+        return D
+
+    def read(doc):
+        if site == "top":
+            return [view_val(n.value) for n in doc.sections if isinstance(n, A.Assignment) and n.key == key]
+        if site in ("block", "section"):
+            return [view_val(c.value) for n in doc.sections if not isinstance(n, A.Assignment) for c in n.children if isinstance(c, A.Assignment) and c.key == key]
+        if site == "meta":
+            return [view_val(doc.meta[key])] if key in doc.meta else []
+        if site == "meta_nested":
+            return [view_val(doc.meta["NEST"][key])] if key in doc.meta.get("NEST", {}) else []
+        lv = [n.value for n in doc.sections if isinstance(n, A.Assignment) and n.key == "L"][0]
+        v = view_val(lv)[2:]
+        if site == "list":
+            return v
+        return [p[2] for p in v if p[0] == "pair" and p[1] == key]
+
+    vals = {"null": None, "empty_str": S(""), "empty_list": {"l": []}}
+    texts, problems = {}, []
+    for name, V in vals.items():
+        try:
+            t = emit(build_doc(doc_with(V)))
+            texts[name] = t
+            got = read(parse(t))
+            want = [view_val(build_val(V))]
+            if got != want:
+                problems.append(f"{name} at {site} site re-read as {got}, wanted {want}")
+        except Exception as e:
+            problems.append(f"{name} at {site}: {type(e).__name__}: {e}"[:200])
+    if len(set(texts.values())) != len(texts):
+        problems.append(f"two of null / \"\" / [] have the same text at a {site} site")
+    try:
+        ta = emit(build_doc(doc_with(dict(ABS))))
+        if read(parse(ta)) != []:
+            problems.append(f"Absent at {site} site is written out: re-read as {read(parse(ta))}")
+        if ta in texts.values():
+            problems.append(f"Absent at {site} site has the same text as one of null / \"\" / []")
+    except Exception as e:
+        problems.append(f"absent at {site}: {type(e).__name__}: {e}"[:200])
+    if problems:
+        return {"status": "fail", "why": "; ".join(problems)[:500], "why_class": "tristate"}
+    return {"status": "ok"}
